@@ -14,7 +14,7 @@ MIN_VALID = {"ws2dgu": 2, "ws2dpgu": 2, "ws2doptv": 2, "ws2doptvp": 2, "ws2doptv
 
 
 def kernel_args(kname, cells, nd, par):
-    a = {"y": cells, "nodata": z3.ToReal(nd)}
+    a = {"y": cells, "nodata": z3.ToReal(nd) if V.is_sym(nd) else float(nd)}
     if kname in ("ws2dgu", "ws2dpgu"):
         a["lmda"] = par["lam"]
     if kname in ("ws2dpgu", "ws2doptvp", "ws2doptvplc", "ws2dwcvp"):
@@ -47,59 +47,61 @@ def cells_of(kname, px, nd, special=None):
 def w_independence(w, cfg):
     kname, valid, special = cfg["kernel"], cfg["valid"], cfg.get("special")
     n = len(valid)
-    it = S.new_interp()
-    px = S.Pixel(n, valid)
-    nd1, nd2 = z3.Int("nd1"), z3.Int("nd2")
-    par, pfacts = params(kname, cfg)
-    facts = px.facts(nd1) + px.facts(nd2) + pfacts + [nd1 != nd2]
-    it.assume(*facts)
-    st1, st2 = State(), State()
-    r1 = S.call_kernel(it, st1, kname, kernel_args(kname, cells_of(kname, px, nd1), nd1, par))
-    n_ob = len(it.obligations)
-    r2 = S.call_kernel(it, st2, kname, kernel_args(kname, cells_of(kname, px, nd2, special), nd2, par))
-    w.res.encoded.update(it.encoded)
-    assume = facts + it.cast_assumptions
-    lem = it.A.lemmas
-
-    def conc(m):
-        d = {"kernel": kname, "data": [C.model_value(m, x) if v else None for x, v in zip(px.xs, px.valid)],
-             "nd1": C.model_value(m, nd1), "nd2": C.model_value(m, nd2), "special": special, "robust": cfg.get("robust", False),
-             "lc": cfg.get("lc", 0.7), "grid": cfg.get("grid", 3)}
-        for k in ("lam", "p"):
-            d[k] = C.model_value(m, par[k])
-        d["l0"] = C.model_value(m, z3.Real("l0"))
-        d["lstep"] = C.model_value(m, z3.Real("lstep"))
-        return d
     tag = f"{kname}[{'robust' if cfg.get('robust') else 'plain'}{',' + special if special else ''}]"
     kp = known_preds(cfg)
-    if sum(valid) < MIN_VALID[kname]:
-        # (c) too few valid observations: returned unchanged, lambda reported as 0
-        cells = cells_of(kname, px, nd1)
-        same = z3.And(*[S.eq(o, c) for o, c in zip(r1["out"], cells)])
-        w.discharge(f"{tag}.too_few_valid_passthrough", assume, same, lemmas=lem, concretize=conc, known_preds=kp)
-        if r1["lopt"] is not None:
-            w.discharge(f"{tag}.too_few_valid_lambda_zero", assume, S.eq(r1["lopt"], 0), lemmas=lem, concretize=conc, known_preds=kp)
-        return
-    for i in range(n):
-        a, b = r1["out"][i], r2["out"][i]
-        if V.is_nonfinite(b) or V.is_nonfinite(a):
-            claim = z3.BoolVal(False)
+
+    def build(abstract):
+        it = S.new_interp()
+        if abstract:
+            if special is not None:
+                raise Unsupported("non-finite cells: ws2d is inlined")
+            S.abstract_ws2d(it)
+        px = S.Pixel(n, valid)
+        nd1, nd2 = z3.Int("nd1"), z3.Int("nd2")
+        par, pfacts = params(kname, cfg)
+        facts = px.facts(nd1) + px.facts(nd2) + pfacts + [nd1 != nd2]
+        it.assume(*facts)
+        st1, st2 = State(), State()
+        r1 = S.call_kernel(it, st1, kname, kernel_args(kname, cells_of(kname, px, nd1), nd1, par))
+        n_ob = len(it.obligations)
+        r2 = S.call_kernel(it, st2, kname, kernel_args(kname, cells_of(kname, px, nd2, special), nd2, par))
+
+        def conc(m):
+            d = {"kernel": kname, "data": [C.model_value(m, x) if v else None for x, v in zip(px.xs, px.valid)],
+                 "nd1": C.model_value(m, nd1), "nd2": C.model_value(m, nd2), "special": special, "robust": cfg.get("robust", False),
+                 "lc": cfg.get("lc", 0.7), "grid": cfg.get("grid", 3)}
+            for k in ("lam", "p"):
+                d[k] = C.model_value(m, par[k])
+            d["l0"] = C.model_value(m, z3.Real("l0"))
+            d["lstep"] = C.model_value(m, z3.Real("lstep"))
+            return d
+        claims = []
+        kw = {"known_preds": kp}
+        if sum(valid) < MIN_VALID[kname]:
+            # (c) too few valid observations: returned unchanged, lambda reported as 0
+            cells = cells_of(kname, px, nd1)
+            claims.append((f"{tag}.too_few_valid_passthrough", z3.And(*[S.eq(o, c) for o, c in zip(r1["out"], cells)]), dict(kw)))
+            if r1["lopt"] is not None:
+                claims.append((f"{tag}.too_few_valid_lambda_zero", S.eq(r1["lopt"], 0), dict(kw)))
         else:
-            claim = S.eq(a, b)
-        w.discharge(f"{tag}.output_independent_of_placeholder[{i}]", assume, claim, lemmas=lem, concretize=conc, known_preds=kp,
-                    sample=(i == 0), first_timeout_ms=min(w.timeout_ms, 20000))
-        w.discharge(f"{tag}.written[{i}]", assume, z3.And(V.to_z3(r1["written"][i]), V.to_z3(r2["written"][i])), lemmas=lem,
-                    concretize=conc, known_preds=kp)
-    if r1["lopt"] is not None:
-        a, b = r1["lopt"], r2["lopt"]
-        claim = z3.BoolVal(False) if (V.is_nonfinite(a) or V.is_nonfinite(b)) else S.eq(a, b)
-        w.discharge(f"{tag}.lambda_independent_of_placeholder", assume, claim, lemmas=lem, concretize=conc, known_preds=kp,
-                    first_timeout_ms=min(w.timeout_ms, 20000))
-    for k, ob in enumerate(it.obligations):
-        if ob.kind in ("cast-range",) and special is not None and k >= n_ob:
-            # a non-finite value reached the int16 store
-            w.discharge(f"{tag}.nonfinite_reaches_output", assume, ob.claim, guard=ob.guard, lemmas=lem, concretize=conc, known_preds=kp)
-    w.vacuity(f"{tag}.assumptions", facts)
+            for i in range(n):
+                a, b = r1["out"][i], r2["out"][i]
+                claim = z3.BoolVal(False) if (V.is_nonfinite(a) or V.is_nonfinite(b)) else S.eq(a, b)
+                claims.append((f"{tag}.output_independent_of_placeholder[{i}]", claim, dict(kw, sample=(i == 0 and not abstract))))
+            if r1["lopt"] is not None:
+                a, b = r1["lopt"], r2["lopt"]
+                claim = z3.BoolVal(False) if (V.is_nonfinite(a) or V.is_nonfinite(b)) else S.eq(a, b)
+                claims.append((f"{tag}.lambda_independent_of_placeholder", claim, dict(kw)))
+            if special is not None:
+                for k, ob in enumerate(it.obligations):
+                    if ob.kind == "cast-range" and k >= n_ob:
+                        claims.append((f"{tag}.nonfinite_reaches_output", ob.claim, dict(kw, guard=ob.guard)))
+                        break
+        return {"assume": facts + it.cast_assumptions, "lemmas": list(it.A.lemmas), "claims": claims, "conc": conc,
+                "encoded": dict(it.encoded), "facts": facts}
+    S.two_stage(w, build, inline=not cfg.get("robust"))
+    px = S.Pixel(n, valid)
+    w.vacuity(f"{tag}.assumptions", px.facts(z3.Int("nd1")) + px.facts(z3.Int("nd2")))
 
 
 def known_preds(cfg):
